@@ -15,7 +15,7 @@ from concurrent.futures import ThreadPoolExecutor
 from . import driver as D
 from . import pure
 
-MONITORS = ["C01", "C03", "C04", "C06", "C07", "C08", "C16", "C16w"]
+MONITORS = ["C01", "C03", "C04", "C06", "C07", "C08", "C16", "C16w", "C16x"]
 NSHARD = 16
 
 
@@ -188,12 +188,14 @@ def check(spec, tier, seed, replay=None):
     known = D.known_keys(pid)
     cases = sim["cases"]
     V = sorted(set(sim["lists"].get("V_" + pid, [])))
-    W = set(sim["lists"].get("V_" + pid + "w", []))          # violations other than the known finding
+    # per known-finding key: the list of violations of "everything but the clause that finding violates"
+    modulo = spec.get("modulo", {})
+    Wk = {k: set(sim["lists"].get(v, [])) for k, v in modulo.items()}
     M = sorted(set(sim["lists"].get("M", [])))
     real, kf = [], {}
     for i in V:
         key = (cases[i].get("keys") or {}).get(pid, "")
-        if key and key in known and i not in W:
+        if key and key in known and i not in Wk.get(key, set()):
             kf.setdefault(key, []).append(i)
         else:
             real.append(i)
@@ -232,8 +234,10 @@ def check(spec, tier, seed, replay=None):
                 if not sim2.get("ok"):
                     continue
                 V2 = sorted(set(sim2["lists"].get("V_" + pid, [])))
-                W2 = set(sim2["lists"].get("V_" + pid + "w", []))
-                real2 = [i for i in V2 if not ((sim2["cases"][i].get("keys") or {}).get(pid, "") in known and i not in W2)]
+                Wk2 = {k: set(sim2["lists"].get(v, [])) for k, v in modulo.items()}
+                def _key2(i):
+                    return (sim2["cases"][i].get("keys") or {}).get(pid, "")
+                real2 = [i for i in V2 if not (_key2(i) in known and i not in Wk2.get(_key2(i), set()))]
                 if real2:
                     found = (sim2, real2[0])
                     break
